@@ -601,7 +601,7 @@ func genNest(r *rand.Rand, id string, tier string) string {
 		case 1:
 			ops = append(ops, "pop")
 		case 6:
-			ops = append(ops, fmt.Sprintf("ppol %d", r.Intn(5))) // the option holds on the push-policy path as well
+			ops = append(ops, fmt.Sprintf("ppol %d", []int{0, 1, 2, 3, 4, 6, 6, 7}[r.Intn(8)])) // the option holds on the push-policy path as well (6: a policy that rejects Stacks itself)
 		default:
 			var vs []string
 			for j, m := 0, r.Intn(5); j < m; j++ {
@@ -628,7 +628,7 @@ func genPol(r *rand.Rand, id string, tier string) string {
 	for i, nops := 0, 1+r.Intn(6); i < nops; i++ {
 		switch r.Intn(8) {
 		case 0:
-			ops = append(ops, fmt.Sprintf("ppol %d", r.Intn(6)))
+			ops = append(ops, fmt.Sprintf("ppol %d", r.Intn(8)))
 		case 1:
 			ops = append(ops, "clrerr")
 		case 2:
@@ -660,6 +660,16 @@ func genPol(r *rand.Rand, id string, tier string) string {
 func genXfer(r *rand.Rand, id string, tier string) string {
 	nextLeaf = 0
 	src := genStackLit(r, Cfg{Kind: kinds(r), Fifo: r.Intn(2) == 0, Mtx: r.Intn(3) == 0}, r.Intn(6), true)
+	if r.Intn(4) == 0 {
+		// "every element of src": typed nil pointers, pointers to zero-valued instances and other values that are not nil
+		// although they have nothing to say for themselves arrive as what they are
+		for i := range src.Xs {
+			if r.Intn(2) == 0 {
+				src.Xs[i] = []V{{T: 'o', Ty: 5, ID: 1}, {T: 'o', Ty: 20, ID: 1}, {T: 'o', Ty: 20, ID: 2}, {T: 'o', Ty: 20, ID: 3}, {T: 'o', Ty: 20, ID: 4},
+					{T: 'o', Ty: 27, ID: 1}, {T: 'o', Ty: 22, ID: 1}, {T: 'o', Ty: 3, ID: 1}, {T: 'Z', Form: "n"}, {T: 'Z', Form: "a"}}[r.Intn(10)] // (5:2 / 5:3 are the same values as 20:1 / 20:2: never both in one case)
+			}
+		}
+	}
 	dc := Cfg{Kind: kinds(r)}
 	if r.Intn(3) != 0 {
 		dc.Cap = 1 + r.Intn(6)
